@@ -1,6 +1,7 @@
 #!/bin/bash
 # tools/refac_regress.sh <lane> <name>...  - re-applies kept behaviour-preserving refactorings (/verif/refactors/<name>/patch.diff)
 # to a scratch worktree and runs all 20 quick tiers: every one must stay silent (exit 0).
+# TARGETED=1: only the checks tools/refac_targets.py selects (anchored in a touched file, or consuming a touched crate).
 set -u
 LANE="$1"; shift
 S=/root/scratch/lane$LANE
@@ -11,11 +12,13 @@ for name in "$@"; do
   git -C $S/repo reset -q --hard; git -C $S/repo clean -fdq; git -C $S/repo checkout -q --detach $HEAD
   if ! git -C $S/repo apply "$d/patch.diff" >/dev/null 2>&1; then echo "$name: DOES-NOT-APPLY"; continue; fi
   alarms=""; broken=""
-  for c in C01 C02 C03 C04 C05 C06 C07 C08 C09 C10 C11 C12 C13 C14 C15 C16 C17 C18 C19 C20; do
+  CHECKS="C01 C02 C03 C04 C05 C06 C07 C08 C09 C10 C11 C12 C13 C14 C15 C16 C17 C18 C19 C20"
+  [[ -n "${TARGETED:-}" ]] && CHECKS=$(python3 /verif/tools/refac_targets.py $name)
+  for c in $CHECKS; do
     /verif/tools/scratch_env.sh lane$LANE run $c --tier quick > $S/refac.log 2>&1; rc=$?
     [[ $rc -eq 1 ]] && { alarms="$alarms $c"; grep -m2 "^violation" $S/refac.log | cut -c1-500 > $d/realarm-$c.txt; }
     [[ $rc -ge 2 ]] && broken="$broken $c"
   done
-  echo "$name: false_alarms=[$alarms ] machinery_failures=[$broken ]"
+  echo "$name: checks=[$CHECKS] false_alarms=[$alarms ] machinery_failures=[$broken ]"
 done
 git -C $S/repo reset -q --hard
